@@ -187,6 +187,8 @@ def run(ctx, rep):
     rep.check(len(lp) == 1 and " ".join(utext(lp[0].value).split()) ==
               "utils.make_line_prices(order.order_type.line_range_info.min_unit_value, order.order_type.line_range_info.max_unit_value, order.order_type.line_range_info.interval)",
               "R2", key(f, None, "the line ladder is built from the market's own range and interval"), f)
+    from rules.c01 import control_always_validates
+    control_always_validates(ctx, rep, "R2")
     # minimum stake rules
     ms = prog.own_method("OrderValidation", "_validate_betfair_min_size")
     cfgm = ctx.cfg(ms)
@@ -212,6 +214,25 @@ def run(ctx, rep):
             sp[side] = (o[2], refuses)
     rep.check(sp == {"BACK": ("client.min_bet_size", True), "LAY": ("client.min_bsp_liability", True)}, "R2",
               key(ms, None, "starting-price orders: BACK liability >= minimum stake, LAY liability >= minimum SP liability"), ms, None, str(sp))
+    # the limits themselves: every read of client.min_* looks the account's currency up afresh (the account
+    # details arrive at login and are refreshed later; a value remembered from before would be another
+    # currency's, or the GBP fallback)
+    from sa.kinds import get_effects
+    eff = get_effects(ctx)
+    n_lim = 0
+    for cls in [prog.cls("BaseClient")] + list(prog.cls("BaseClient").all_subclasses()):
+        for pname in ("min_bet_size", "min_bet_payout", "min_bsp_liability"):
+            pf = cls.methods.get(pname)
+            if pf is None or pf.is_abstract_stub:
+                continue
+            n_lim += 1
+            reach = res.reachable_funcs([pf])
+            eff_f = [g.qual for g in reach if eff.effectful(g)]
+            attrs = {n.attr for g in reach for n in walk_nodes(g.node.body, ast.Attribute) if utext(n.value) == "self"}
+            rep.check(not eff_f and attrs <= {"account_details"}, "R2",
+                      "%s.%s is computed from the account details on every read, nothing is remembered" % (cls.name, pname),
+                      pf, None, "effectful: %s; instance state read: %s" % (eff_f, sorted(attrs)))
+    rep.floor("R2", "client minimum-stake properties", n_lim, 9)
     sz = prog.own_method("OrderValidation", "_validate_size")
     d = [utext(s.value) for s in walk_nodes(sz.node.body, ast.Assign) if utext(s.targets[0]) == "size"]
     rep.check(sorted(d) == ["order.order_type.size", "order.order_type.size or order.order_type.bet_target_size"], "R2",
@@ -269,4 +290,7 @@ MUTANTS = [
     dict(id="c17-liability-none-dropped", file=TC, func="OrderValidation._validate_betfair_liability",
          old="        if order.order_type.liability is None:\n            self._on_error(order, \"Order liability is None\")\n        elif order.order_type.liability <= 0:",
          new="        if order.order_type.liability is not None and order.order_type.liability <= 0:", expect=["R2"], why="missing liability accepted"),
+    dict(id="c17-min-stake-cached", file="flumine/clients/simulatedclient.py", func="SimulatedClient.min_bet_size",
+         old="        if self.account_details:", new="        self._seen = True\n        if self.account_details:",
+         expect=["R2"], why="the property keeps state between reads"),
 ]
